@@ -33,6 +33,27 @@ pub fn key_only_path() -> String {
     p.to_string_lossy().to_string()
 }
 
+/// a certificate file whose first section is the good test certificate and whose second section is damaged:
+/// kind 2 = a body that is not base64, kind 3 = a section cut short, without its END line (an interrupted renewal)
+pub fn damaged_chain_path(kind: u128) -> String {
+    let pem = std::fs::read_to_string(cert_path()).unwrap();
+    let start = pem.find("-----BEGIN CERTIFICATE-----").unwrap();
+    let end = pem.find("-----END CERTIFICATE-----").unwrap() + "-----END CERTIFICATE-----".len();
+    let cert = &pem[start..end];
+    let text = if kind == 2 {
+        format!("{}\n-----BEGIN CERTIFICATE-----\n!!! this is not base64 !!!\n-----END CERTIFICATE-----\n", cert)
+    } else {
+        format!("{}\n{}\n", cert, &cert[..cert.len() / 2])
+    };
+    let p = std::env::temp_dir().join(format!("tt_verif_damaged_chain_{}_{}.pem", kind, std::process::id()));
+    if !p.exists() {
+        let tmp = std::env::temp_dir().join(format!("tt_verif_damaged_chain_{}_{}_{:?}.tmp", kind, std::process::id(), std::thread::current().id()));
+        std::fs::write(&tmp, text).unwrap();
+        let _ = std::fs::rename(&tmp, &p);
+    }
+    p.to_string_lossy().to_string()
+}
+
 pub fn host(name: &str) -> TlsHostInfo {
     TlsHostInfo {
         hostname: name.to_string(),
